@@ -1,6 +1,6 @@
 (* Correspondence cases for C26: the driver ran the real recordstore.Path.Encode / Decode. *)
 From Coq Require Import List ZArith Bool.
-Require Import MTX.Lib.Civil MTX.Model.C26_RecPath MTX.Model.C26_Zone.
+Require Import MTX.Lib.Civil MTX.Model.C26_RecPath MTX.Model.C26_Zone MTX.Model.C26_Finder.
 Import ListNotations.
 Local Open Scope Z_scope.
 
@@ -26,7 +26,14 @@ Inductive case :=
   (* instants start, start+step, ... around a change: runs of (count, (off, decoded - unix, rep, recognised)) *)
 | ZSweep (zf : Z) (ztx : list (Z * Z)) (f p : list Z) (start step : Z) (runs : list (Z * (Z * Z * bool * bool)))
   (* Go's offset function sampled over years: runs of (count, off) *)
-| ZScan (zf : Z) (ztx : list (Z * Z)) (start step : Z) (runs : list (Z * Z)).
+| ZScan (zf : Z) (ztx : list (Z * Z)) (start step : Z) (runs : list (Z * Z))
+  (* the finder (segment.go) on a real directory tree: working directory cwd, recordPath f, extension ext,
+     local offset loff; written = (path name, unix, ns) of every segment file created the way the recorder
+     does (os.Create of Encode(ReplaceAll(f, %path, name) + ext), distinct files only); p = the name asked for;
+     found = starts returned by FindSegments(conf, p, nil, nil) (empty on ErrNoSegmentsFound),
+     has = fixedPathHasSegments(conf{Name: p}), listed = regexpPathFindPathsWithSegments(conf{Regexp: ^.*$}) *)
+| Find (loff : Z) (cwd f ext p : list Z) (written : list (list Z * Z * Z))
+       (found : list (Z * Z)) (has_any : bool) (listed : list (list Z)).
 
 Definition dres_eqb (a b : dres) : bool :=
   match a, b with
@@ -47,8 +54,25 @@ Fixpoint sweep_all {A} (chk : A -> Z -> bool) (u step : Z) (runs : list (Z * A))
   | (cnt, a) :: r => run_all (chk a) u step (Z.to_nat cnt) && sweep_all chk (u + cnt * step) step r
   end.
 
+Definition start_eqb (a b : Z * Z) : bool := (fst a =? fst b) && (snd a =? snd b).
+Definition mem_start (x : Z * Z) (l : list (Z * Z)) : bool := existsb (start_eqb x) l.
+Definition same_starts (a b : list (Z * Z)) : bool :=
+  (Nat.eqb (length a) (length b)) && forallb (fun x => mem_start x b) a && forallb (fun x => mem_start x a) b.
+Definition same_names (a b : list (list Z)) : bool :=
+  forallb (fun x => mem_name x b) a && forallb (fun x => mem_name x a) b.
+
 Definition mismatch (c : case) : bool :=
   match c with
+  | Find loff cwd f ext p written found has_any listed =>
+      let L := fixed_lz loff in
+      let files := dedup (map (fun w : list Z * Z * Z =>
+                                 let '(q, u, n) := w in walked cwd f ext q (mkI u n loff)) written) in
+      let fm := find_model L cwd f ext p files in
+      negb (valid_name p && forallb (fun w : list Z * Z * Z => valid_name (fst (fst w))) written
+            && Nat.eqb (length files) (length written)
+            && same_starts fm found
+            && Bool.eqb has_any (negb (Nat.eqb (length fm) 0))
+            && same_names (list_model L cwd f ext files) listed)
   | Enc f p unix ns off out => negb (name_eqb (encode_go f p (mkI unix ns off)) out)
   | Dec loff f v o _ => negb (dres_eqb (decode loff f v) o)
   | Round loff f p unix ns off enc o =>
@@ -106,4 +130,19 @@ Definition spec_fail (c : case) : bool :=
                        let '(_, (_, delta, rep, ok)) := r in
                        ok && (Z.abs delta <=? 2 * zB) && (rep || (delta =? 0))) runs)
   | ZScan _ _ _ _ _ => false
+  | Find loff cwd f ext p written found has_any listed =>
+      (* every segment the recorder wrote for a valid path name is found again under that name (and under
+         every name with the same non-empty elements: same directory on disk), with its start; fixed paths
+         are reported as having segments; the regexp lister reports the clean form of the name;
+         nothing else is found under p *)
+      let ts := tokenize (f ++ ext) in
+      let mine := filter (fun w : list Z * Z * Z => name_eqb (squeeze (fst (fst w))) (squeeze p)) written in
+      let ok_w := fun w : list Z * Z * Z => let '(q, u, n) := w in valid_name q && encodable loff ts (mkI u n loff) in
+      wf_toks ts && identifies ts && valid_name p && forallb ok_w written &&
+      negb (forallb (fun w : list Z * Z * Z =>
+                       let '(q, u, n) := w in mem_start (trunc_start ts (mkI u n loff)) found) mine
+            && forallb (fun w : list Z * Z * Z => mem_name (squeeze (fst (fst w))) listed) written
+            && Bool.eqb has_any (negb (Nat.eqb (length mine) 0))
+            && forallb (fun s => existsb (fun w : list Z * Z * Z =>
+                                            let '(q, u, n) := w in start_eqb s (trunc_start ts (mkI u n loff))) mine) found)
   end.
